@@ -76,7 +76,7 @@ template<int K, LieGroup G>
 Spline<K, G> Spline<K, G>::ConstantVelocity(const Tangent<G> & v, double T, const G & ga)
 {
   if (T <= 0) {
-    return Spline();
+    return Spline(ga);
   } else {
     Eigen::Matrix<double, Dof<G>, K> V = (T / K) * v.replicate(1, K);
     return Spline(T, std::move(V), ga);
